@@ -1,8 +1,14 @@
-//! PDU-loop history harness (C03, C05, C06, ...): drives the real frame slots through random
+//! PDU-loop history harness (C01, C02, C03, C05, C06): drives the real frame slots through random
 //! operation histories using the cfg(ethercrab_verif) wrappers and prints, per history, the ops
 //! and the observation vector in the same encoding as coq/Pdu/Slots.v `obs_history`.
-use ethercrab::verif::{VCreated, VFuture, VReceived};
+//!
+//! Operations that contain a yield point (receive_frame, ReceivedFrame::drop, ReceiveFrameFut::poll)
+//! can be run "windowed": other operations are then executed from inside the yield-point callback,
+//! i.e. exactly between the two halves of the real operation, and the log shows the halves as
+//! separate ops (rxbegin/rxcopy/rxend, droprel/dropclear, pollbegin/pollend).
+use ethercrab::verif::{self, VCreated, VFuture, VReceived};
 use ethercrab::{Command, MainDevice, MainDeviceConfig, PduRx, PduStorage, PduTx, Reads, SendableFrame, Timeouts, Writes};
+use std::cell::Cell;
 use std::future::Future;
 use std::pin::Pin;
 use std::sync::Arc;
@@ -66,7 +72,7 @@ struct FutH {
 struct World {
     md: &'static MainDevice<'static>,
     tx: PduTx<'static>,
-    rx: PduRx<'static>,
+    rx: Option<PduRx<'static>>,
     n: usize,
     cap: usize,
     created: Vec<Option<VCreated<'static>>>,
@@ -74,11 +80,80 @@ struct World {
     received: Vec<Option<VReceived<'static>>>,
     sending: Vec<Option<SendableFrame<'static>>>,
     sent_frames: Vec<Vec<u8>>,
+    in_flight: Vec<Vec<u8>>,
     ops: Vec<String>,
     obs: Vec<i64>,
     full: bool,
-    /// spec-oracle notes (violations of C03/C05 seen directly on the implementation)
+    mode: String,
+    /// spec-oracle notes (violations seen directly on the implementation)
     oracle: Vec<String>,
+    /// windows entered: abandonment / expiry while TX or RX is inside the buffer, etc.
+    windows: Vec<String>,
+    /// inner operations to run at each site of the operation that is currently windowed
+    plan: [usize; 5],
+    win_rx: Option<Vec<u8>>,
+    rx_phase: u8,
+    win_drop: bool,
+    win_poll: bool,
+    poll_was: Option<u8>,
+    cur_poll_expired: bool,
+    in_window: bool,
+    /// datagrams accepted into the frame currently being built in each slot (independent encoder)
+    building: Vec<Vec<Dg>>,
+    /// frame bytes each pending request is expected to transmit
+    expect: Vec<Option<Vec<u8>>>,
+    /// expectation captured when TX claimed the slot
+    expect_tx: Vec<Option<Vec<u8>>>,
+}
+
+#[derive(Clone)]
+struct Dg { code: u8, idx: u8, raw: [u8; 4], len: usize, data: Vec<u8> }
+
+fn code_of(kind: u8) -> u8 { [0u8, 1, 4, 7, 10, 8, 2, 5, 14, 11, 12][kind as usize] }
+
+fn raw4(kind: u8, a: u32, r: u16) -> [u8; 4] {
+    let (adp, ado): (u16, u16) = match kind {
+        1 | 6 => ((0u16).wrapping_sub(a as u16), r),
+        3 | 5 => (0, r),
+        4 | 9 | 10 => (a as u16, (a >> 16) as u16),
+        0 => (0, 0),
+        _ => (a as u16, r),
+    };
+    [adp as u8, (adp >> 8) as u8, ado as u8, (ado >> 8) as u8]
+}
+
+fn encode_frame(dgs: &[Dg]) -> Vec<u8> {
+    let mut body = Vec::new();
+    for (k, d) in dgs.iter().enumerate() {
+        let lf = (d.len as u16) | if k + 1 < dgs.len() { 0x8000 } else { 0 };
+        body.extend([d.code, d.idx]);
+        body.extend(d.raw);
+        body.extend([lf as u8, (lf >> 8) as u8, 0, 0]);
+        body.extend(&d.data);
+        body.extend(std::iter::repeat(0u8).take(d.len - d.data.len() + 2));
+    }
+    let hdr = (body.len() as u16) | 0x1000;
+    let mut f = vec![0xffu8; 6];
+    f.extend([0x10u8; 6]);
+    f.extend([0x88, 0xa4, hdr as u8, (hdr >> 8) as u8]);
+    f.extend(body);
+    f
+}
+
+thread_local! {
+    static CTL: Cell<(*mut World, *mut Rng)> = const { Cell::new((std::ptr::null_mut(), std::ptr::null_mut())) };
+}
+
+fn hook(site: u8, slot: u8) {
+    let (wp, rp) = CTL.with(|c| c.get());
+    if wp.is_null() {
+        return;
+    }
+    // SAFETY: single-threaded; the outer operation has moved the object it works on out of the
+    // World before calling into ethercrab, so the inner operations never touch it.
+    let w: &mut World = unsafe { &mut *wp };
+    let rng: &mut Rng = unsafe { &mut *rp };
+    w.at_site(site, slot, rng);
 }
 
 impl World {
@@ -107,6 +182,70 @@ impl World {
             .collect()
     }
 
+    fn at_site(&mut self, site: u8, slot: u8, rng: &mut Rng) {
+        match site {
+            1 if self.win_rx.is_some() => {
+                self.obs.extend([5, slot as i64]);
+                self.snap();
+                self.rx_phase = 1;
+                let k = self.plan[1];
+                self.run_inner(k, rng);
+                let bytes = self.win_rx.clone().unwrap();
+                let plen = (u16::from_le_bytes([bytes[14], bytes[15]]) & 0x7ff) as usize;
+                self.ops.push(format!("{{\"o\":\"rxcopy\",\"k\":{},\"i\":{}}}", slot, bytes_json(&bytes[16..16 + plen])));
+            }
+            2 if self.win_rx.is_some() => {
+                self.snap();
+                self.rx_phase = 2;
+                let k = self.plan[2];
+                self.run_inner(k, rng);
+                self.ops.push(format!("{{\"o\":\"rxend\",\"k\":{}}}", slot));
+            }
+            3 if self.win_drop => {
+                self.obs.push(1);
+                self.snap();
+                let k = self.plan[3];
+                self.run_inner(k, rng);
+                self.ops.push(format!("{{\"o\":\"dropclear\",\"i\":{}}}", slot));
+            }
+            4 if self.win_poll => {
+                let was = self.md.verif_slot(slot as usize).0;
+                self.obs.extend([0, was as i64]);
+                self.snap();
+                self.poll_was = Some(was);
+                let k = self.plan[4];
+                let exp = self.cur_poll_expired;
+                self.run_inner(k, rng);
+                let st = self.md.verif_slot(slot as usize).0;
+                if exp && (st == 3 || st == 5) {
+                    self.windows.push(format!("expiry-while-{}:in-poll-window", if st == 3 { "tx" } else { "rx" }));
+                }
+            }
+            _ => {}
+        }
+    }
+
+    fn run_inner(&mut self, k: usize, rng: &mut Rng) {
+        if k == 0 {
+            return;
+        }
+        let saved = (self.plan, self.win_rx.take(), self.rx_phase, self.win_drop, self.win_poll, self.poll_was.take(), self.in_window);
+        self.plan = [0; 5];
+        self.win_drop = false;
+        self.win_poll = false;
+        self.in_window = true;
+        for _ in 0..k {
+            step(self, rng);
+        }
+        self.plan = saved.0;
+        self.win_rx = saved.1;
+        self.rx_phase = saved.2;
+        self.win_drop = saved.3;
+        self.win_poll = saved.4;
+        self.poll_was = saved.5;
+        self.in_window = saved.6;
+    }
+
     fn alloc(&mut self) -> Option<usize> {
         self.ops.push("{\"o\":\"alloc\"}".into());
         let r = match self.md.verif_alloc_frame() {
@@ -114,9 +253,10 @@ impl World {
                 let i = f.slot() as usize;
                 self.obs.extend([1, i as i64]);
                 if self.created[i].is_some() || self.futs[i].is_some() || self.received[i].is_some() {
-                    self.oracle.push(format!("alloc handed out slot {} which still has a live handle", i));
+                    self.oracle.push(format!("alloc-live-slot: alloc handed out slot {} which still has a live handle", i));
                 }
                 self.created[i] = Some(f);
+                self.building[i].clear();
                 Some(i)
             }
             Err(e) => {
@@ -133,7 +273,11 @@ impl World {
         self.ops.push(format!("{{\"o\":\"push\",\"i\":{},\"kind\":{},\"a\":{},\"r\":{},\"data\":{},\"ovr\":{}}}", i, kind, a, r, bytes_json(data), ovr.map(|o| o.to_string()).unwrap_or("null".into())));
         let f = self.created[i].as_mut().unwrap();
         match f.push_pdu(command(kind, a, r), data, ovr) {
-            Ok(h) => self.obs.extend([1, h.pdu_idx as i64, h.index_in_frame as i64, h.alloc_size as i64]),
+            Ok(h) => {
+                self.obs.extend([1, h.pdu_idx as i64, h.index_in_frame as i64, h.alloc_size as i64]);
+                let len = ovr.map(|o| (o as usize).max(data.len())).unwrap_or(data.len());
+                self.building[i].push(Dg { code: code_of(kind), idx: h.pdu_idx, raw: raw4(kind, a, r), len, data: data.to_vec() });
+            }
             Err(_) => self.obs.push(2),
         }
         self.snap();
@@ -144,7 +288,10 @@ impl World {
         let f = self.created[i].as_mut().unwrap();
         match f.push_pdu_slice_rest(command(kind, a, r), data) {
             Ok(None) => self.obs.push(3),
-            Ok(Some((n, h))) => self.obs.extend([4, n as i64, h.pdu_idx as i64, h.index_in_frame as i64, h.alloc_size as i64]),
+            Ok(Some((n, h))) => {
+                self.obs.extend([4, n as i64, h.pdu_idx as i64, h.index_in_frame as i64, h.alloc_size as i64]);
+                self.building[i].push(Dg { code: code_of(kind), idx: h.pdu_idx, raw: raw4(kind, a, r), len: n, data: data[..n].to_vec() });
+            }
             Err(_) => self.obs.push(2),
         }
         self.snap();
@@ -155,6 +302,7 @@ impl World {
         let f = self.created[i].take().unwrap();
         let fut = f.mark_sendable(self.md, Duration::from_micros(timeout_us), retries);
         self.futs[i] = Some(FutH { fut, deadline: clock::now_us() + timeout_us, timeout_us, retries, polled: false });
+        self.expect[i] = Some(encode_frame(&self.building[i]));
         self.snap();
     }
 
@@ -168,17 +316,10 @@ impl World {
         self.ops.push("{\"o\":\"txclaim\"}".into());
         let r = match self.tx.next_sendable_frame() {
             Some(s) => {
-                // storage_slot_index is crate-private: find the slot by its status (Sending = 3)
-                let mut idx = None;
-                for i in 0..self.n {
-                    if self.md.verif_slot(i).0 == 3 && self.sending[i].is_none() {
-                        idx = Some(i);
-                        break;
-                    }
-                }
-                let i = idx.expect("claimed frame has a Sending slot");
+                let i = verif::sendable_slot(&s) as usize;
                 self.obs.extend([1, i as i64, s.len() as i64]);
                 self.sending[i] = Some(s);
+                self.expect_tx[i] = self.expect[i].clone();
                 Some(i)
             }
             None => {
@@ -190,7 +331,7 @@ impl World {
         r
     }
 
-    fn tx_done(&mut self, i: usize, outcome: u8) {
+    fn tx_done(&mut self, i: usize, outcome: u8) -> Vec<u8> {
         self.ops.push(format!("{{\"o\":\"txdone\",\"i\":{},\"oc\":{}}}", i, outcome));
         let s = self.sending[i].take().unwrap();
         let mut seen = Vec::new();
@@ -203,20 +344,38 @@ impl World {
             }
         });
         self.obs.extend(seen.iter().map(|x| *x as i64));
+        if let Some(e) = self.expect_tx[i].take() {
+            if e != seen {
+                self.oracle.push(format!("tx-corrupt: slot {} transmitted bytes that are not the frame its request built ({} vs {} bytes)", i, seen.len(), e.len()));
+            }
+        }
         if outcome == 0 {
-            self.sent_frames.push(seen);
+            self.sent_frames.push(seen.clone());
+            self.in_flight.push(seen.clone());
         }
         self.snap();
+        seen
     }
 
-    fn rx(&mut self, bytes: &[u8]) -> i64 {
-        self.ops.push(format!("{{\"o\":\"rx\",\"bytes\":{}}}", bytes_json(bytes)));
+    /// receive_frame; `windowed` = split at the yield points with `plan[1]`/`plan[2]` inner ops
+    fn rx(&mut self, bytes: &[u8], windowed: bool) -> i64 {
         let before = self.full_snapshot();
-        let res = std::panic::catch_unwind(std::panic::AssertUnwindSafe(|| self.rx.receive_frame(bytes)));
+        let mut rx = self.rx.take().expect("rx available");
+        if windowed {
+            self.ops.push(format!("{{\"o\":\"rxbegin\",\"bytes\":{}}}", bytes_json(bytes)));
+            self.win_rx = Some(bytes.to_vec());
+            self.rx_phase = 0;
+        } else {
+            self.ops.push(format!("{{\"o\":\"rx\",\"bytes\":{}}}", bytes_json(bytes)));
+            self.win_rx = None;
+        }
+        let res = std::panic::catch_unwind(std::panic::AssertUnwindSafe(|| rx.receive_frame(bytes)));
+        self.rx = Some(rx);
+        self.win_rx = None;
         let code = match res {
             Err(_) => {
                 self.obs.push(-99);
-                self.oracle.push("receive_frame panicked".into());
+                self.oracle.push("rx-panic: receive_frame panicked".into());
                 -99
             }
             Ok(Ok(ethercrab::ReceiveAction::Ignored)) => {
@@ -234,15 +393,15 @@ impl World {
             }
         };
         let after = self.full_snapshot();
-        // C05 oracle, stated on the implementation alone
-        let changed: Vec<usize> = (0..self.n).filter(|i| before[*i] != after[*i]).collect();
-        if code != 1 {
-            if !changed.is_empty() {
-                self.oracle.push(format!("rx-reject-side-effect: frame not accepted (result {}) but slot(s) {:?} changed: {:?} -> {:?}", code, changed,
-                    changed.iter().map(|i| (before[*i].0, before[*i].1)).collect::<Vec<_>>(), changed.iter().map(|i| (after[*i].0, after[*i].1)).collect::<Vec<_>>()));
-            }
-        } else {
-            if changed.len() != 1 {
+        if !windowed && !self.in_window {
+            // C05 oracle, stated on the implementation alone
+            let changed: Vec<usize> = (0..self.n).filter(|i| before[*i] != after[*i]).collect();
+            if code != 1 {
+                if !changed.is_empty() {
+                    self.oracle.push(format!("rx-reject-side-effect: frame not accepted (result {}) but slot(s) {:?} changed: {:?} -> {:?}", code, changed,
+                        changed.iter().map(|i| (before[*i].0, before[*i].1)).collect::<Vec<_>>(), changed.iter().map(|i| (after[*i].0, after[*i].1)).collect::<Vec<_>>()));
+                }
+            } else if changed.len() != 1 {
                 self.oracle.push(format!("rx-accept-locality: accepted frame changed slots {:?}", changed));
             } else {
                 let k = changed[0];
@@ -259,60 +418,113 @@ impl World {
         code
     }
 
-    fn poll(&mut self, i: usize) {
-        let h = self.futs[i].as_mut().unwrap();
+    fn poll(&mut self, i: usize, windowed: bool) {
+        let mut h = self.futs[i].take().unwrap();
         let st_before = self.md.verif_slot(i).0;
         // the timer is only polled when the response is not there yet (status != RxDone)
         let timer_polled = st_before != 6;
         let expired = h.polled && clock::now_us() >= h.deadline;
-        if timer_polled { h.polled = true; }
+        if timer_polled {
+            h.polled = true;
+        }
         let retries = h.retries;
-        self.ops.push(format!("{{\"o\":\"poll\",\"i\":{},\"expired\":{},\"retries\":{}}}", i, expired, retries));
+        if expired && (st_before == 3 || st_before == 5) {
+            self.windows.push(format!("expiry-while-{}:{}", if st_before == 3 { "tx" } else { "rx" }, if retries == 0 { "release" } else { "retry" }));
+        }
+        self.cur_poll_expired = expired;
+        if windowed {
+            self.ops.push(format!("{{\"o\":\"pollbegin\",\"i\":{}}}", i));
+            self.win_poll = true;
+        } else {
+            self.ops.push(format!("{{\"o\":\"poll\",\"i\":{},\"expired\":{},\"retries\":{}}}", i, expired, retries));
+        }
+        self.poll_was = None;
         let waker = Arc::new(NoopWake).into();
         let mut cx = Context::from_waker(&waker);
         let r = Pin::new(&mut h.fut).poll(&mut cx);
+        self.win_poll = false;
+        let rt_after = if expired && retries > 0 { retries - 1 } else { retries };
+        if windowed {
+            match self.poll_was.take() {
+                None => {
+                    // the CAS succeeded: the whole poll is the first half
+                    self.obs.push(1);
+                }
+                Some(wv) => {
+                    self.ops.push(format!("{{\"o\":\"pollend\",\"i\":{},\"was\":{},\"expired\":{},\"retries\":{}}}", i, wv, expired, retries));
+                    match &r {
+                        Poll::Ready(Ok(_)) => self.obs.push(1),
+                        Poll::Pending => self.obs.push(0),
+                        Poll::Ready(Err(e)) => {
+                            self.obs.push(2);
+                            self.obs.extend(err_code(e));
+                        }
+                    }
+                    self.obs.push(rt_after as i64);
+                }
+            }
+        } else {
+            match &r {
+                Poll::Ready(Ok(_)) => self.obs.extend([1, retries as i64]),
+                Poll::Pending => self.obs.extend([0, rt_after as i64]),
+                Poll::Ready(Err(e)) => {
+                    self.obs.push(2);
+                    self.obs.extend(err_code(e));
+                    self.obs.push(rt_after as i64);
+                }
+            }
+        }
         match r {
             Poll::Ready(Ok(rf)) => {
-                self.obs.extend([1, retries as i64]);
-                self.futs[i] = None;
                 self.received[i] = Some(rf);
             }
             Poll::Pending => {
-                let mut rt = retries;
                 if expired && retries > 0 {
-                    rt -= 1;
-                    h.retries = rt;
+                    h.retries = retries - 1;
                     h.deadline = clock::now_us() + h.timeout_us;
                 }
-                self.obs.extend([0, rt as i64]);
+                self.futs[i] = Some(h);
             }
-            Poll::Ready(Err(e)) => {
-                let mut rt = retries;
-                if expired && retries > 0 {
-                    rt -= 1;
-                }
-                self.obs.push(2);
-                self.obs.extend(err_code(&e));
-                self.obs.push(rt as i64);
+            Poll::Ready(Err(_)) => {
                 // the future has completed; dropping it now must not touch the slot
-                self.futs[i] = None;
+                drop(h);
             }
         }
         self.snap();
     }
 
     fn drop_fut(&mut self, i: usize) {
+        let st = self.md.verif_slot(i).0;
+        if st == 3 || st == 5 {
+            self.windows.push(format!("abandon-while-{}", if st == 3 { "tx" } else { "rx" }));
+        }
         self.ops.push(format!("{{\"o\":\"dropf\",\"i\":{}}}", i));
         self.futs[i] = None;
         self.snap();
     }
 
-    fn drop_received(&mut self, i: usize) {
-        self.ops.push(format!("{{\"o\":\"dropr\",\"i\":{}}}", i));
+    fn drop_received(&mut self, i: usize, windowed: bool) {
         let r = self.received[i].take();
-        let res = std::panic::catch_unwind(std::panic::AssertUnwindSafe(move || drop(r)));
-        self.obs.push(if res.is_ok() { 1 } else { -99 });
-        self.snap();
+        if windowed {
+            self.ops.push(format!("{{\"o\":\"droprel\",\"i\":{}}}", i));
+            self.win_drop = true;
+            let res = std::panic::catch_unwind(std::panic::AssertUnwindSafe(move || drop(r)));
+            self.win_drop = false;
+            if res.is_err() {
+                self.obs.push(-99);
+                self.oracle.push("drop-panic: ReceivedFrame::drop panicked".into());
+            }
+            // (the dropclear op was logged at the site; its observation is empty)
+            self.snap();
+        } else {
+            self.ops.push(format!("{{\"o\":\"dropr\",\"i\":{}}}", i));
+            let res = std::panic::catch_unwind(std::panic::AssertUnwindSafe(move || drop(r)));
+            self.obs.push(if res.is_ok() { 1 } else { -99 });
+            if res.is_err() {
+                self.oracle.push("drop-panic: ReceivedFrame::drop panicked".into());
+            }
+            self.snap();
+        }
     }
 }
 
@@ -402,104 +614,323 @@ fn mutate(base: &[u8], rng: &mut Rng, cap: usize) -> Vec<u8> {
     b
 }
 
-fn history<const N: usize, const D: usize>(rng: &mut Rng, mode: &str, depth: usize) -> String {
+/// One randomly chosen operation (state aware).
+fn step(w: &mut World, rng: &mut Rng) {
+    let n = w.n;
+    let cap = w.cap;
+    let windows = w.mode == "c06" || w.mode == "c01";
+    let mut ch: Vec<u8> = vec![0, 0]; // alloc
+    let cr: Vec<usize> = (0..n).filter(|i| w.created[*i].is_some()).collect();
+    let fu: Vec<usize> = (0..n).filter(|i| w.futs[*i].is_some()).collect();
+    let re: Vec<usize> = (0..n).filter(|i| w.received[*i].is_some()).collect();
+    let se: Vec<usize> = (0..n).filter(|i| w.sending[*i].is_some()).collect();
+    if !cr.is_empty() {
+        ch.extend([1, 1, 1, 2, 2, 3]);
+    }
+    ch.extend([4, 4]);
+    if !se.is_empty() {
+        ch.extend([5, 5, 5]);
+    }
+    if w.rx.is_some() {
+        ch.extend([6, 6, 6]);
+    }
+    if !fu.is_empty() {
+        ch.extend([7, 7, 7, 8]);
+    }
+    if !re.is_empty() {
+        ch.extend([9, 9]);
+    }
+    if !windows && !se.is_empty() {
+        ch = vec![5];
+    }
+    match *rng.pick(&ch) {
+        0 => {
+            w.alloc();
+        }
+        1 => {
+            let i = *rng.pick(&cr);
+            let room = cap - 16;
+            let len = match rng.below(4) {
+                0 => 0,
+                1 => rng.below(room as u64 + 4) as usize,
+                _ => rng.below(10) as usize,
+            };
+            let ovr = match rng.below(4) {
+                0 => Some(rng.below(len as u64 + 6) as u16),
+                _ => None,
+            };
+            let data = rng.bytes(len);
+            if rng.chance(1, 5) {
+                w.push_rest(i, rng.below(11) as u8, rng.edgy(32) as u32, rng.edgy(16) as u16, &data);
+            } else {
+                w.push(i, rng.below(11) as u8, rng.edgy(32) as u32, rng.edgy(16) as u16, &data, ovr);
+            }
+        }
+        2 => {
+            let i = *rng.pick(&cr);
+            let t = *rng.pick(&[50u64, 100, 1000]);
+            let r = rng.below(3) as usize;
+            w.mark(i, t, r);
+        }
+        3 => {
+            let i = *rng.pick(&cr);
+            w.drop_created(i);
+        }
+        4 => {
+            w.tx_claim();
+        }
+        5 => {
+            let i = *rng.pick(&se);
+            let oc = match rng.below(6) {
+                0 => 1,
+                1 => 2,
+                _ => 0,
+            };
+            w.tx_done(i, oc);
+        }
+        6 => {
+            // deliver something
+            let c05 = w.mode == "c05";
+            let bytes = if !w.in_flight.is_empty() && rng.chance(3, 4) {
+                let k = rng.below(w.in_flight.len() as u64) as usize;
+                let base = if rng.chance(3, 4) { w.in_flight.remove(k) } else { w.in_flight[k].clone() };
+                let resp = response_for(&base, rng);
+                if (c05 && rng.chance(1, 2)) || rng.chance(1, 10) { mutate(&resp, rng, cap) } else { resp }
+            } else if !w.sent_frames.is_empty() && rng.chance(1, 2) {
+                let k = rng.below(w.sent_frames.len() as u64) as usize;
+                let base = w.sent_frames[k].clone();
+                let resp = response_for(&base, rng);
+                if rng.chance(1, 2) { mutate(&resp, rng, cap) } else { resp }
+            } else {
+                let l = rng.below(80) as usize;
+                let mut b = rng.bytes(l);
+                if l > 16 && rng.chance(1, 2) {
+                    b[12] = 0x88;
+                    b[13] = 0xa4;
+                    b[15] = 0x10 | (b[15] & 7);
+                }
+                b
+            };
+            let windowed = windows && !w.in_window && rng.chance(1, 3);
+            if windowed {
+                w.plan[1] = rng.below(3) as usize;
+                w.plan[2] = rng.below(2) as usize;
+            }
+            w.rx(&bytes, windowed);
+            w.plan[1] = 0;
+            w.plan[2] = 0;
+        }
+        7 => {
+            let i = *rng.pick(&fu);
+            if !w.in_window && rng.chance(1, 3) {
+                clock::advance(*rng.pick(&[30u64, 60, 200, 2000]));
+            }
+            let windowed = windows && !w.in_window && rng.chance(1, 3);
+            if windowed {
+                w.plan[4] = rng.range(1, 2) as usize;
+            }
+            w.poll(i, windowed);
+            w.plan[4] = 0;
+        }
+        8 => {
+            let i = *rng.pick(&fu);
+            w.drop_fut(i);
+        }
+        _ => {
+            let i = *rng.pick(&re);
+            let windowed = windows && !w.in_window && rng.chance(1, 2);
+            if windowed {
+                w.plan[3] = rng.range(1, 4) as usize;
+            }
+            w.drop_received(i, windowed);
+            w.plan[3] = 0;
+        }
+    }
+}
+
+fn new_world<const N: usize, const D: usize>(mode: &str) -> Box<World> {
     clock::reset();
     let storage: &'static PduStorage<N, D> = Box::leak(Box::new(PduStorage::<N, D>::new()));
     let (tx, rx, pl) = storage.try_split().unwrap();
     let md: &'static MainDevice<'static> = Box::leak(Box::new(MainDevice::new(pl, Timeouts::default(), MainDeviceConfig::default())));
-    let mut w = World {
-        md, tx, rx, n: N, cap: D,
-        created: (0..N).map(|_| None).collect(), futs: (0..N).map(|_| None).collect(),
-        received: (0..N).map(|_| None).collect(), sending: (0..N).map(|_| None).collect(),
-        sent_frames: Vec::new(), ops: Vec::new(), obs: Vec::new(), full: mode == "c05", oracle: Vec::new(),
-    };
-    let windows = mode == "c06"; // allow other ops while TX holds a frame
-    let mut in_flight: Vec<Vec<u8>> = Vec::new();
-    for _ in 0..depth {
-        // enabled choices
-        let mut ch: Vec<u8> = vec![0, 0]; // alloc
-        let cr: Vec<usize> = (0..N).filter(|i| w.created[*i].is_some()).collect();
-        let fu: Vec<usize> = (0..N).filter(|i| w.futs[*i].is_some()).collect();
-        let re: Vec<usize> = (0..N).filter(|i| w.received[*i].is_some()).collect();
-        let se: Vec<usize> = (0..N).filter(|i| w.sending[*i].is_some()).collect();
-        if !cr.is_empty() { ch.extend([1, 1, 1, 2, 2, 3]); }
-        ch.extend([4, 4]);
-        if !se.is_empty() { ch.extend([5, 5, 5]); }
-        ch.extend([6, 6, 6]);
-        if !fu.is_empty() { ch.extend([7, 7, 7, 8]); }
-        if !re.is_empty() { ch.extend([9, 9]); }
-        if !windows && !se.is_empty() { ch = vec![5]; }
-        match *rng.pick(&ch) {
-            0 => { w.alloc(); }
-            1 => {
-                let i = *rng.pick(&cr);
-                let room = D - 16;
-                let len = match rng.below(4) { 0 => 0, 1 => rng.below(room as u64 + 4) as usize, _ => rng.below(10) as usize };
-                let ovr = match rng.below(4) { 0 => Some(rng.below(len as u64 + 6) as u16), _ => None };
-                let data = rng.bytes(len);
-                if rng.chance(1, 5) { w.push_rest(i, rng.below(11) as u8, rng.edgy(32) as u32, rng.edgy(16) as u16, &data); }
-                else { w.push(i, rng.below(11) as u8, rng.edgy(32) as u32, rng.edgy(16) as u16, &data, ovr); }
-            }
-            2 => { let i = *rng.pick(&cr); let t = *rng.pick(&[50u64, 100, 1000]); let r = rng.below(3) as usize; w.mark(i, t, r); }
-            3 => { let i = *rng.pick(&cr); w.drop_created(i); }
-            4 => { w.tx_claim(); }
-            5 => {
-                let i = *rng.pick(&se);
-                let oc = match rng.below(6) { 0 => 1, 1 => 2, _ => 0 };
-                w.tx_done(i, oc);
-                if oc == 0 { let f = w.sent_frames.last().unwrap().clone(); in_flight.push(f); }
-            }
-            6 => {
-                // deliver something
-                let bytes = if !in_flight.is_empty() && rng.chance(3, 4) {
-                    let k = rng.below(in_flight.len() as u64) as usize;
-                    let base = if rng.chance(3, 4) { in_flight.remove(k) } else { in_flight[k].clone() };
-                    let resp = response_for(&base, rng);
-                    if mode == "c05" && rng.chance(1, 2) { mutate(&resp, rng, D) } else if rng.chance(1, 10) { mutate(&resp, rng, D) } else { resp }
-                } else if !w.sent_frames.is_empty() && rng.chance(1, 2) {
-                    let k = rng.below(w.sent_frames.len() as u64) as usize;
-                    let base = w.sent_frames[k].clone();
-                    let resp = response_for(&base, rng);
-                    if rng.chance(1, 2) { mutate(&resp, rng, D) } else { resp }
-                } else {
-                    let l = rng.below(80) as usize;
-                    let mut b = rng.bytes(l);
-                    if l > 16 && rng.chance(1, 2) { b[12] = 0x88; b[13] = 0xa4; b[15] = 0x10 | (b[15] & 7); }
-                    b
-                };
-                w.rx(&bytes);
-            }
-            7 => {
-                let i = *rng.pick(&fu);
-                if rng.chance(1, 3) { clock::advance(*rng.pick(&[30u64, 60, 200, 2000])); }
-                w.poll(i);
-            }
-            8 => { let i = *rng.pick(&fu); w.drop_fut(i); }
-            _ => { let i = *rng.pick(&re); w.drop_received(i); }
+    Box::new(World {
+        md,
+        tx,
+        rx: Some(rx),
+        n: N,
+        cap: D,
+        created: (0..N).map(|_| None).collect(),
+        futs: (0..N).map(|_| None).collect(),
+        received: (0..N).map(|_| None).collect(),
+        sending: (0..N).map(|_| None).collect(),
+        sent_frames: Vec::new(),
+        in_flight: Vec::new(),
+        ops: Vec::new(),
+        obs: Vec::new(),
+        full: mode == "c05",
+        mode: mode.to_string(),
+        oracle: Vec::new(),
+        windows: Vec::new(),
+        plan: [0; 5],
+        win_rx: None,
+        rx_phase: 0,
+        win_drop: false,
+        win_poll: false,
+        poll_was: None,
+        cur_poll_expired: false,
+        in_window: false,
+        building: (0..N).map(|_| Vec::new()).collect(),
+        expect: (0..N).map(|_| None).collect(),
+        expect_tx: (0..N).map(|_| None).collect(),
+    })
+}
+
+/// let go of everything, then the full capacity must be allocatable (C03 probe)
+fn drain_probe(w: &mut World) {
+    let n = w.n;
+    let se: Vec<usize> = (0..n).filter(|i| w.sending[*i].is_some()).collect();
+    for i in se {
+        w.tx_done(i, 0);
+    }
+    for i in 0..n {
+        if w.created[i].is_some() {
+            w.drop_created(i);
+        }
+        if w.futs[i].is_some() {
+            w.drop_fut(i);
+        }
+        if w.received[i].is_some() {
+            w.drop_received(i, false);
         }
     }
-    // ---- C03 probe: let go of everything, then the full capacity must be allocatable ----
-    let se: Vec<usize> = (0..N).filter(|i| w.sending[*i].is_some()).collect();
-    for i in se { w.tx_done(i, 0); }
-    for i in 0..N {
-        if w.created[i].is_some() { w.drop_created(i); }
-        if w.futs[i].is_some() { w.drop_fut(i); }
-        if w.received[i].is_some() { w.drop_received(i); }
-    }
     let mut got = 0;
-    for _ in 0..N {
-        if w.alloc().is_some() { got += 1; }
+    for _ in 0..n {
+        if w.alloc().is_some() {
+            got += 1;
+        }
     }
     let extra = w.alloc().is_some();
-    if got != N {
-        w.oracle.push(format!("capacity-lost: after all handles were dropped only {} of {} frames could be allocated", got, N));
+    if got != n {
+        w.oracle.push(format!("capacity-lost: after all handles were dropped only {} of {} frames could be allocated", got, n));
     }
     if extra {
         w.oracle.push("capacity-exceeded: more frames than slots could be allocated".into());
     }
-    format!("{{\"n\":{},\"cap\":{},\"full\":{},\"ops\":[{}],\"obs\":[{}],\"oracle\":[{}]}}", N, D, w.full,
-        w.ops.join(","), w.obs.iter().map(|x| x.to_string()).collect::<Vec<_>>().join(","),
-        w.oracle.iter().map(|s| format!("{:?}", s)).collect::<Vec<_>>().join(","))
+}
+
+fn finish(w: &World, kind: &str) -> String {
+    format!(
+        "{{\"kind\":\"{}\",\"n\":{},\"cap\":{},\"full\":{},\"ops\":[{}],\"obs\":[{}],\"oracle\":[{}],\"windows\":[{}]}}",
+        kind,
+        w.n,
+        w.cap,
+        w.full,
+        w.ops.join(","),
+        w.obs.iter().map(|x| x.to_string()).collect::<Vec<_>>().join(","),
+        w.oracle.iter().map(|s| format!("{:?}", s)).collect::<Vec<_>>().join(","),
+        w.windows.iter().map(|s| format!("{:?}", s)).collect::<Vec<_>>().join(",")
+    )
+}
+
+fn history<const N: usize, const D: usize>(rng: &mut Rng, mode: &str, depth: usize) -> String {
+    let mut w = new_world::<N, D>(mode);
+    CTL.with(|c| c.set((&mut *w as *mut World, rng as *mut Rng)));
+    verif::set_yield_hook(Some(hook));
+    for _ in 0..depth {
+        step(&mut w, rng);
+    }
+    drain_probe(&mut w);
+    verif::set_yield_hook(None);
+    CTL.with(|c| c.set((std::ptr::null_mut(), std::ptr::null_mut())));
+    finish(&w, "history")
+}
+
+/// C06 count clause: a request whose response is lost (all transmissions, or all but one).
+/// The transmit task services every sendable frame before the next deadline.
+fn scenario_count<const N: usize, const D: usize>(rng: &mut Rng, retries: usize, deliver_after: Option<usize>, late_poll: bool) -> String {
+    let mut w = new_world::<N, D>("c06");
+    verif::set_yield_hook(None);
+    let t = *rng.pick(&[50u64, 100, 1000]);
+    let i = w.alloc().unwrap();
+    let len = rng.below(8) as usize;
+    let data = rng.bytes(len);
+    w.push(i, rng.below(11) as u8, rng.edgy(32) as u32, rng.edgy(16) as u16, &data, None);
+    if rng.chance(1, 2) && D - 16 > 40 {
+        w.push(i, 2, 0x1001, 0x130, &[], Some(2));
+    }
+    w.mark(i, t, retries);
+    // a competing request on another slot, left alone
+    if N > 1 && rng.chance(1, 2) {
+        if let Some(j) = w.alloc() {
+            w.push(j, 3, 0, 0, &[], Some(1));
+        }
+    }
+    let mut transmissions: Vec<Vec<u8>> = Vec::new();
+    let mut outcome = String::new();
+    for _round in 0..(retries + 4) {
+        match w.tx_claim() {
+            Some(k) if k == i => {
+                let b = w.tx_done(k, 0);
+                transmissions.push(b);
+            }
+            Some(k) => {
+                w.tx_done(k, 0);
+                continue;
+            }
+            None => {}
+        }
+        if let Some(d) = deliver_after {
+            if transmissions.len() == d + 1 {
+                let resp = response_for(transmissions.last().unwrap(), rng);
+                w.rx(&resp, false);
+                if late_poll {
+                    // the deadline passes before the caller looks: the response must still win
+                    clock::advance(t + 5);
+                }
+            }
+        }
+        if w.futs[i].is_none() {
+            break;
+        }
+        w.poll(i, false); // the first poll arms the timer
+        if w.futs[i].is_none() {
+            outcome = if w.received[i].is_some() { "ok".into() } else { "err".into() };
+            break;
+        }
+        clock::advance(t + 1);
+        w.poll(i, false);
+        if w.futs[i].is_none() {
+            outcome = if w.received[i].is_some() { "ok".into() } else { "err".into() };
+            break;
+        }
+    }
+    if outcome.is_empty() {
+        outcome = "pending".into();
+    }
+    let identical = transmissions.windows(2).all(|p| p[0] == p[1]);
+    match deliver_after {
+        None => {
+            if transmissions.len() != retries + 1 {
+                w.oracle.push(format!("retry-count: {} transmissions for retries={} (expected {})", transmissions.len(), retries, retries + 1));
+            }
+            if outcome != "err" {
+                w.oracle.push(format!("lost-response-outcome: request without response ended as {:?}", outcome));
+            }
+        }
+        Some(d) => {
+            if outcome != "ok" {
+                w.oracle.push(format!("response-ignored: response after transmission {} (late_poll={}) ended as {:?}", d + 1, late_poll, outcome));
+            }
+            if transmissions.len() != d + 1 {
+                w.oracle.push(format!("retry-count: {} transmissions, response after {}", transmissions.len(), d + 1));
+            }
+        }
+    }
+    if !identical {
+        w.oracle.push("retransmission-differs: a retransmission is not byte-identical to the first transmission".into());
+    }
+    drain_probe(&mut w);
+    finish(&w, "count")
 }
 
 fn main() {
@@ -511,6 +942,20 @@ fn main() {
     let mut rng = Rng::new(seed);
     for k in 0..n {
         let d = if mode == "c05" { depth } else { depth / 2 + (rng.below(depth as u64 / 2 + 1) as usize) };
+        if mode == "c06" && k % 3 == 0 {
+            let retries = rng.below(4) as usize;
+            let deliver = match rng.below(3) {
+                0 => None,
+                _ => Some(rng.below(retries as u64 + 1) as usize),
+            };
+            let late = rng.chance(1, 2);
+            let line = match k % 2 {
+                0 => scenario_count::<1, 60>(&mut rng, retries, deliver, late),
+                _ => scenario_count::<2, 72>(&mut rng, retries, deliver, late),
+            };
+            println!("{}", line);
+            continue;
+        }
         let line = match k % 6 {
             0 => history::<1, 44>(&mut rng, &mode, d),
             1 => history::<2, 44>(&mut rng, &mode, d),
